@@ -124,17 +124,74 @@ pub fn run_search_flag(game: &Game, table: &mut TranspositionTable, cfg: &Search
     }
 }
 
-/// `info pv` lines of a transcript as move-text lists
+/// One `info ...` line of the engine, read token by token (UCI keyword grammar), so that the checks neither
+/// fall silent nor raise an alarm when the engine prints its report in another layout (one field per line as today,
+/// or the usual single line `info depth 3 score cp 25 nodes 100 pv e2e4 e7e5`).
+#[derive(Clone, Debug, Default, PartialEq)]
+pub struct Info {
+    pub depth: Option<u32>,
+    pub score: Option<i32>,
+    pub nodes: Option<u64>,
+    pub time: Option<u128>,
+    pub pv: Option<Vec<String>>,
+}
+
+const INFO_KEYWORDS: [&str; 17] = ["depth", "seldepth", "time", "nodes", "pv", "multipv", "score", "currmove", "currmovenumber", "hashfull", "nps", "tbhits", "sbhits", "cpuload", "string", "refutation", "currline"];
+
+pub fn parse_info(line: &str) -> Option<Info> {
+    let mut it = line.split_whitespace().peekable();
+    if it.next()? != "info" {
+        return None;
+    }
+    let mut info = Info::default();
+    while let Some(t) = it.next() {
+        match t {
+            "depth" => info.depth = it.next().and_then(|x| x.parse().ok()),
+            "nodes" => info.nodes = it.next().and_then(|x| x.parse().ok()),
+            "time" => info.time = it.next().and_then(|x| x.parse().ok()),
+            "score" => {
+                if it.peek() == Some(&"cp") {
+                    it.next();
+                    info.score = it.next().and_then(|x| x.parse().ok());
+                }
+            }
+            "pv" => {
+                let mut v = Vec::new();
+                while let Some(m) = it.peek() {
+                    if INFO_KEYWORDS.contains(m) {
+                        break;
+                    }
+                    v.push(it.next().unwrap().to_string());
+                }
+                info.pv = Some(v);
+            }
+            "string" => break,
+            _ => {}
+        }
+    }
+    Some(info)
+}
+
+/// principal variations reported in a transcript, as move-text lists
 pub fn pv_lines(transcript: &[String]) -> Vec<Vec<String>> {
-    transcript.iter().filter_map(|l| l.strip_prefix("info pv")).map(|rest| rest.split_whitespace().map(|s| s.to_string()).collect()).collect()
+    transcript.iter().filter_map(|l| parse_info(l)).filter_map(|i| i.pv).collect()
 }
 
 pub fn info_depths(transcript: &[String]) -> Vec<u32> {
-    transcript.iter().filter_map(|l| l.strip_prefix("info depth ")).filter_map(|d| d.trim().parse().ok()).collect()
+    transcript.iter().filter_map(|l| parse_info(l)).filter_map(|i| i.depth).collect()
 }
 
 pub fn info_scores(transcript: &[String]) -> Vec<i32> {
-    transcript.iter().filter_map(|l| l.strip_prefix("info score cp ")).filter_map(|d| d.trim().parse().ok()).collect()
+    transcript.iter().filter_map(|l| parse_info(l)).filter_map(|i| i.score).collect()
+}
+
+pub fn info_nodes(transcript: &[String]) -> Vec<u64> {
+    transcript.iter().filter_map(|l| parse_info(l)).filter_map(|i| i.nodes).collect()
+}
+
+/// the line reports a completed iteration (carries a `depth` field)
+pub fn is_depth_line(l: &str) -> bool {
+    l.starts_with("info") && parse_info(l).map_or(false, |i| i.depth.is_some())
 }
 
 /// replay a line on the model; Err(index, move) at the first illegal move
